@@ -236,3 +236,69 @@ Proof.
   exists [([10%N; 98%N], [2%N])], [10%N], [OSet 0%nat [97%N] [1%N]], [ODel 0%nat [97%N]; OGet 0%nat [97%N]].
   split; [apply sortedb_sound; vm_compute; reflexivity|]. split; vm_compute; [reflexivity|discriminate].
 Qed.
+
+(* ------------------------------------------------------------------ restore_exact, nested snapshots included:
+   between Snapshot (returning id) and Restore id on view i ANY operation may happen — further snapshots of the same
+   view (they get larger ids), restores / deletions of OTHER snapshot ids — except restoring or deleting id itself. *)
+Definition keeps_snapshot (i : nat) (id : N) (o : op) : Prop :=
+  match o with ORestore j id' | ODeleteSnapshot j id' => j = i -> id' <> id | _ => True end.
+
+Lemma snap_get_del_other : forall {A} (l : list (N * A)) id id', id' <> id -> snap_get (snap_del l id') id = snap_get l id.
+Proof.
+  induction l as [|[j x] t IH]; intros id id' H; simpl; auto.
+  destruct (N.eqb_spec j id') as [->|Hn]; simpl.
+  - rewrite IH by auto. destruct (N.eqb_spec id' id); [congruence|reflexivity].
+  - rewrite IH by auto. reflexivity.
+Qed.
+
+Lemma snap_get_put_other : forall {A} (l : list (N * A)) id id' x, id' <> id -> snap_get (snap_put l id' x) id = snap_get l id.
+Proof.
+  intros. unfold snap_put. simpl. destruct (N.eqb_spec id' id); [congruence|]. apply snap_get_del_other; auto.
+Qed.
+
+Lemma spec_restore_exact_nested : forall s i vw,
+  nth_error (s_views s) i = Some vw ->
+  let id := sv_count vw in
+  let s1 := fst (spec_step s (OSnapshot i)) in
+  forall ops, (forall o, In o ops -> keeps_snapshot i id o) ->
+  let s2 := fst (spec_run s1 ops) in
+  s_map (fst (spec_step s2 (ORestore i id))) = s_map s.
+Proof.
+  intros s i vw Hn id s1 ops Hops s2.
+  (* invariant: view i still holds (id, map of s) and its counter is beyond id *)
+  set (P := fun st : sstate => exists w, nth_error (s_views st) i = Some w /\ snap_get (sv_snaps w) id = Some (s_map s) /\ (id < sv_count w)%N).
+  assert (Hstep : forall st o, keeps_snapshot i id o -> P st -> P (fst (spec_step st o))).
+  { intros st o Hk (w & Hw & Hg & Hc). unfold P.
+    destruct o as [j k|j k|j k x|j k|j a b l r|j p l r|j|j id'|j id'|j p]; simpl;
+      destruct (nth_error (s_views st) j) as [wj|] eqn:Ej; simpl; try (exists w; auto; fail).
+    - (* snapshot of view j *)
+      destruct (Nat.eq_dec j i) as [->|Hji].
+      + rewrite Hw in Ej. inversion Ej; subst wj. eexists. split; [eapply set_nth_same; eauto|]. cbn [sv_snaps sv_count]. split.
+        * rewrite snap_get_put_other by lia. exact Hg.
+        * lia.
+      + exists w. rewrite set_nth_other by auto. auto.
+    - (* restore *)
+      destruct (snap_get (sv_snaps wj) id') eqn:Eg; simpl; [|exists w; auto].
+      destruct (Nat.eq_dec j i) as [->|Hji].
+      + rewrite Hw in Ej. inversion Ej; subst wj. eexists. split; [eapply set_nth_same; eauto|]. cbn [sv_snaps sv_count]. split; auto.
+        rewrite snap_get_del_other; auto.
+      + exists w. rewrite set_nth_other by auto. auto.
+    - (* delete snapshot *)
+      destruct (Nat.eq_dec j i) as [->|Hji].
+      + rewrite Hw in Ej. inversion Ej; subst wj. eexists. split; [eapply set_nth_same; eauto|]. cbn [sv_snaps sv_count]. split; auto.
+        rewrite snap_get_del_other; auto.
+      + exists w. rewrite set_nth_other by auto. auto.
+    - (* with prefix *)
+      exists w. split; auto. rewrite nth_error_app1; auto. apply nth_error_Some. congruence. }
+  assert (Hrun : forall ops st, (forall o, In o ops -> keeps_snapshot i id o) -> P st -> P (fst (spec_run st ops))).
+  { induction ops0 as [|o t IH]; intros st Ho HP; simpl; auto.
+    pose proof (Hstep st o (Ho o (or_introl eq_refl)) HP) as HP'.
+    destruct (spec_step st o) as [st' r]. simpl in HP'.
+    specialize (IH st' (fun o' H => Ho o' (or_intror H)) HP'). destruct (spec_run st' t). exact IH. }
+  assert (HP1 : P s1).
+  { unfold P, s1. simpl. rewrite Hn. simpl. eexists. split; [eapply set_nth_same; eauto|]. simpl. split.
+    - fold id. rewrite N.eqb_refl. reflexivity.
+    - fold id. lia. }
+  destruct (Hrun ops s1 Hops HP1) as (w & Hw & Hg & _). fold s2 in Hw.
+  simpl. rewrite Hw, Hg. reflexivity.
+Qed.
